@@ -12,6 +12,7 @@ import F1Verif.Drive.Run
 import F1Verif.Drive.Pool
 import F1Verif.Drive.Render
 import F1Verif.Drive.Gaussian
+import F1Verif.Drive.Cli
 /-!
 Line-protocol driver (`f1model`). One case per line on stdin:
 
@@ -27,6 +28,7 @@ def dispatch (op : String) : Option (List String → List String → Option (Str
   | "verdict" => some verdict
   | "dist" => some dist
   | "run" => some runOp
+  | "cli" => some cliOp
   | "gauss" => some gauss
   | "render" => some render
   | "tmpl" => some tmplOp
